@@ -132,12 +132,12 @@ fn check(case: &SemCase, net: &Net, fs: &[F]) -> Verdict {
 }
 
 impl Property for C02 {
-    type Raw = RawSem;
+    type Raw = crate::scale::WithMid<RawSem>;
     fn id(&self) -> &'static str {
         "C02"
     }
     fn rule(&self) -> String {
-        "random network x closed extended formula (wild-cards; domains on any quantifier, nested and repeated labels; full operator set incl. EW/AW) x context sets inside the unit set (empty / full / colour-independent / colour-dependent / empty for some colours only), compared point-wise with the explicit evaluator through the 4 extended entry points; plus, for a second generated body and a label, the three README equivalences (both sides through the tool, and each side against the evaluator). Deterministic stage: the same equivalences (plus directly stated expected sets) with a domain whose BDD has 2^11 nodes on a network of 22 frozen variables. Non-trivial: the main formula has a wild-card or domain and (a domain label set is empty for some but not all valid colours, or a quantified body does not mention its variable, or domains are nested).".into()
+        "random network x closed extended formula (wild-cards; domains on any quantifier, nested and repeated labels; full operator set incl. EW/AW) x context sets inside the unit set (empty / full / colour-independent / colour-dependent / empty for some colours only), compared point-wise with the explicit evaluator through the 4 extended entry points; plus, for a second generated body and a label, the three README equivalences (both sides through the tool, and each side against the evaluator). Deterministic stage: the same equivalences (plus directly stated expected sets) with a domain whose BDD has 2^11 nodes on a network of 22 frozen variables. Mid-size and benchmark-size networks: ~2.5 % of the random cases are generated 7-10-variable networks (up to ~64 parameter bits) and a deterministic stage runs 8 / 50 extended formulae (wild-cards everywhere; domains where one state variable is affordable) on 20 / 30 bundled models, with context sets that are unions of sub-spaces x parameter cubes, single points and their complements; these are decided by the reference symbolic evaluator (refsym.rs), which is calibrated against the explicit one on 1500 / 20000 small extended cases at the start of the run. Non-trivial: the main formula has a wild-card or domain and (a domain label set is empty for some but not all valid colours, or a quantified body does not mention its variable, or domains are nested).".into()
     }
     fn assumptions(&self) -> Vec<String> {
         vec![
@@ -149,10 +149,14 @@ impl Property for C02 {
     fn cases(&self, tier: Tier) -> u32 {
         tier.pick(6_000, 400_000)
     }
-    fn strategy(&self, tier: Tier) -> BoxedStrategy<RawSem> {
-        raw_sem(tier.pick(3, 4), 2..=2, 5, tier.pick(14, 20))
+    fn strategy(&self, tier: Tier) -> BoxedStrategy<crate::scale::WithMid<RawSem>> {
+        crate::scale::with_mid(raw_sem(tier.pick(3, 4), 2..=2, 5, tier.pick(14, 20)), 39, 1, tier.pick(600, 2500))
     }
-    fn check_raw(&self, raw: &RawSem) -> Verdict {
+    fn check_raw(&self, raw: &crate::scale::WithMid<RawSem>) -> Verdict {
+        let raw = match raw {
+            crate::scale::WithMid::Small(r) => r,
+            crate::scale::WithMid::Mid(raw, ms) => return crate::scale::check_mid("C02", raw, *ms, FCfg::EXTENDED_WEAK),
+        };
         let resolved = resolve_sem_with(raw, FCfg::EXTENDED_WEAK, |env, raws| {
             let main = gen::resolve_f(&raws[0], env);
             // a body open in `x` (at most two further quantifier levels inside)
@@ -189,9 +193,30 @@ impl Property for C02 {
                 Err(f) => Verdict::Fail(f),
             };
         }
+        if let Some(v) = crate::scale::replay_scale("C02", case) {
+            return v;
+        }
         replay_with(case, check)
     }
-    fn extra_stages(&self, tier: Tier, _seed: u64, stats: &mut Stats) -> Option<Failure> {
+    fn extra_stages(&self, tier: Tier, seed: u64, stats: &mut Stats) -> Option<Failure> {
+        // benchmark-size models, decided by the reference symbolic evaluator (calibrated first)
+        crate::scale::calibrate(seed, tier.pick(1500, 20_000), FCfg::EXTENDED_WEAK, stats);
+        let mut models: Vec<&str> = crate::scale::SCALE_MODELS_QUICK.to_vec();
+        if tier == Tier::Thorough {
+            models.extend(crate::scale::SCALE_MODELS_MORE);
+        }
+        if let Some(f) = crate::scale::bundled_scale_stage(
+            "C02",
+            &models,
+            tier.pick(8, 50),
+            seed,
+            std::time::Duration::from_secs(tier.pick(5, 30)),
+            FCfg::EXTENDED_WEAK,
+            1,
+            stats,
+        ) {
+            return Some(f);
+        }
         // domains and wild-card sets with BDDs of thousands of nodes (no explicit evaluator at this
         // size: the README equivalences and a direct set-level expectation decide)
         let sizes = tier.pick(vec![11usize], vec![6, 9, 11, 12]);
